@@ -208,9 +208,10 @@ claim('C16',
           'value == start + sum of changes is stated as a chain (every history entry carries previous total + its change, the value '
           'is the last total); the sum form follows by telescoping (hand lemma)',
           'user code does not call add_value on sources / sinks directly',
-          'Batch.value == sum of its parts and System.get_net_value_of_assets == sum over registered assets are NOT machine-checked '
-          '(they are literally `sum(...)` over the collection; the dynamic dispatch of `value` for nested batches is modelled by an '
-          'uninterpreted batch_value)',
+          'Batch.value == sum of the values of the contained items (each through its own value property) is machine-checked '
+          '(lsum with the congruence lemma for finite sums as an axiom); System.get_net_value_of_assets == sum over the registered '
+          'assets is NOT (filtered generator; literally `sum(x.value for x in self._assets if isinstance(x, Asset))`); the value '
+          'of a nested batch is the uninterpreted batch_value(heap)',
       ],
       explanation='Asset invariant + add_value/add_cost/initialize posts; Source: cost tally and value move by the value the part '
                   'had when it left (snapshot before the hand-over); Sink: value grows by the value at receipt; Maintainer charges the '
@@ -223,7 +224,9 @@ claim('C14', level='other',
                   '_simulation_helper returns the fresh System it created (structure check of the real AST); (b) scan of '
                   'simprocesd/model: the only calls into random/time/uuid/secrets/os/id/hash are random.random() in Event.__init__ '
                   'and time.time() in System.simulate whose value reaches only print(); no default argument is a mutable object or '
-                  'a call evaluated at import.  NOT decided: split-run equivalence, independence from the asset-id offset, equality '
+                  'a call evaluated at import; (c) the per-run facts the split-run clause rests on are the machine-checked contracts of '
+                  'Environment.run / schedule_event (everything due within the horizon is dispatched, later events stay queued, the '
+                  'clock ends exactly at t0+d).  NOT decided: split-run equivalence, independence from the asset-id offset, equality '
                   'of in-process and worker-process results (two-run relational properties / pickling).')
 
 claim('C20',
@@ -252,7 +255,6 @@ claim('C17',
           'that do not raise',
           'the field `parts` is declared on Part as well (no isinstance narrowing in the engine); every `.parts` read in the '
           'repository is isinstance-guarded (scan)',
-          'Batch.value == sum of the contained values is not machine-checked (sum over a comprehension)',
       ],
       explanation='PartBatcher._get_part_from_input takes the first leaf and keeps the order of the rest; _add_part_to_output appends '
                   'behind what was collected, starts a new Batch when none is under construction and closes it exactly at n; '
